@@ -544,7 +544,7 @@ func (e *Engine) load(st *State, p Value, t types.Type, pos string) Value {
 	case *smt.Term:
 		// pointer to a heap object of struct/basic type: *p loads the whole object
 		pt := t
-		return e.loadHeap(st, x, "obj:"+typeName(pt), pt)
+		return e.loadHeap(st, x, typeName(pt), pt)
 	}
 	e.fail("load through %T at %s", p, pos)
 	return nil
@@ -572,7 +572,7 @@ func (e *Engine) store(st *State, p Value, t types.Type, v Value, pos string) {
 			return
 		}
 	case *smt.Term:
-		e.storeHeap(st, x, "obj:"+typeName(t), t, v)
+		e.storeHeap(st, x, typeName(t), t, v)
 		return
 	}
 	e.fail("store through %T at %s", p, pos)
